@@ -18,6 +18,8 @@ const (
 	KChan
 	KGo
 	KUser
+	KEnv  // environment-internal point: serialised by the scheduler but never a decision
+	KWake // after a channel wake-up: serialised, never a decision
 )
 
 func (k Kind) String() string {
@@ -42,6 +44,10 @@ func (k Kind) String() string {
 		return "Go"
 	case KUser:
 		return "User"
+	case KEnv:
+		return "Env"
+	case KWake:
+		return "Wake"
 	}
 	return "?"
 }
